@@ -22,11 +22,33 @@
   `builder_commute`, `builder_last_wins`, `builder_addKeyword` (accumulates), `builder_setKeywords`
   (replaces), `builder_elisp`/`builder_default` (the presets are the documented chains),
   `builder_reachable` (all 1536 option sets are reachable).
-  Not covered by a closed-form theorem yet: sign-initial and non-ASCII-initial tokens, `#:`; those are
-  carried by the exhaustive correspondence (token corpus x positions x all 1536 option sets).
+  The remaining token classes (LexprModel/Proofs/Tokens2.lean, NumberEnd.lean; imported here):
+   * `C08_sign`, `C08_sign_keyword`, `C08_sign_number(_only)`, `C08_frame_sign(_any)`: a sign-initial token is a
+     symbol when the byte after the sign is the end, a delimiter, a sign-subsequent or a dot not followed by a
+     digit — a postfix keyword exactly when it ends in `:` and that spelling is enabled — the error
+     InvalidNumber for sign-dot-digit (`+.5`), otherwise whatever the number scanner makes of the whole token;
+     no option is consulted unless the token ends in `:`;
+   * `C08_nonascii(_keyword)`, `C08_frame_nonascii`: a token whose first scalar is non-ASCII is a symbol (or
+     postfix keyword) iff that scalar is alphabetic, else ExpectedSomeValue, under every option set;
+   * `C08_octothorpe_keyword`, `C08_frame_octothorpe`: `#:name` is the keyword iff the `#:` spelling is enabled,
+     otherwise the error ExpectedSomeIdent reported behind `#:`; `C08_hash_fixed`: every other `#` token
+     (`#t #f #nil #( #u8 #vu8 #\ #x #b #o #d`, junk) consults no option at all;
+   * `C08_number_delimited`: whenever ANY token is read as a number the reader has stopped at the end of the
+     input or in front of a delimiter — a token is a number only as a whole.
+  The frame clause for whole inputs (LexprModel/Spec/Exercised.lean, Proofs/FrameTok.lean, Frame.lean, DepthInd.lean,
+  ScanBase.lean, FrameScan.lean; imported here): `tokenOpts` names, per token, the options its reading may
+  consult; `exercised cfg mode bytes` collects them over one flat scan of the input; **`C08_frame`** — two
+  configurations of the same build that agree on every option in `exercised c1 mode bytes` give the same
+  outcome of `from_str / from_slice / from_reader` on `bytes`: same value, or same error code and position,
+  and the same final state — for every input (well-formed or not), every source, all 1536 x 1536 pairs.
+  (`C08_frame_op` is the exact operational version; the flat scan over-approximates it: witnesses in FrameScan.)
+  Observations kept as kernel-checked examples there: `#true` / `#false` are not single tokens (`(#true)` reads
+  as `(#t rue)`), `+.5` is InvalidNumber while `+.x` is a symbol, `"` and `|` end numbers but not symbols.
 -/
 import LexprModel.Proofs.Tokens
 import LexprModel.Proofs.Builder
+import LexprModel.Proofs.FrameScan
+import LexprModel.Proofs.NumberEnd
 namespace Lexpr
 namespace Parse
 
